@@ -105,7 +105,12 @@ void ScriptedBackend::InitCustomOptions() {
   AddStoredOption("tech:sdummy sdummy", "String dummy option.", opts_.sdummy_);
   AddStoredOption("tech:ddummy ddummy", "Double dummy option.", opts_.ddummy_);
   AddSolveResults({{sol::FAILURE + 1, "fatal error 1"},
-                   {sol::LIMIT_FEAS_NEW + 1, "AI iteration limit, feasible solution"}});
+                   {sol::LIMIT_FEAS_NEW + 1, "AI iteration limit, feasible solution"},
+                   // codes that are the FIRST code of their class (they belong under that class in the -! table)
+                   {sol::INFEASIBLE, "scripted: infeasible, plain"},
+                   {sol::LIMIT_FEAS, "scripted: limit, first code"},
+                   {sol::FAILURE, "scripted: failure, first code"},
+                   {sol::INFEASIBLE + 99, "scripted: infeasible, last code"}});
 }
 
 void ScriptedBackend::SetInterrupter(mp::Interrupter *inter) {
